@@ -141,4 +141,158 @@ class C02b(Obligation):
                       known={'C02-after-star': L != n})
 
 
-OBLIGATIONS = [C02b]
+from jedi.inference import param as jparam  # noqa: E402
+from jedi.inference.lazy_value import LazyUnknownValue  # noqa: E402
+
+POOL = ('a', 'b', 'c', 'd')
+
+
+class ParamNode:
+    def __init__(self, name, star_count, default):
+        self.name = Obj(value=name)
+        self.star_count = star_count
+        self.default = default
+
+    def __repr__(self):
+        return '<param %s%s>' % ('*' * self.star_count, self.name.value)
+
+
+class Rec:
+    def __init__(self, param, lazy, is_default):
+        self.param, self.lazy, self.is_default = param, lazy, is_default
+
+
+def param_shapes(P):
+    """valid parameter lists without '/' and bare '*': normals, [*args], keyword-only normals, [**kw]"""
+    out = []
+
+    def rec(i, seq, seen_args, seen_kw, need_default):
+        if i == P:
+            out.append(tuple(seq))
+            return
+        if seen_kw:
+            return
+        for star, default in ((0, False), (0, True), (1, False), (2, False)):
+            if star == 1 and seen_args:
+                continue
+            if star == 0 and not default and need_default and not seen_args:
+                continue        # non-default after default (positional part)
+            rec(i + 1, seq + [(star, default)], seen_args or star == 1, star == 2,
+                need_default or (star == 0 and default and not seen_args))
+    rec(0, [], False, False, False)
+    return [s for s in out if len(s) == P]
+
+
+def python_bind(shape, args):
+    """reference: Python's binding of the call (positional args first); None if the call is a TypeError"""
+    P = len(shape)
+    names = POOL[:P]
+    bound = {}
+    positional = [v for k, v in args if k is None]
+    keywords = [(k, v) for k, v in args if k is not None]
+    if len(set(k for k, v in keywords)) != len(keywords):
+        return None
+    pos_params = []
+    for i, (star, default) in enumerate(shape):
+        if star:
+            break
+        pos_params.append(i)
+    var_pos = next((i for i, (star, d) in enumerate(shape) if star == 1), None)
+    var_kw = next((i for i, (star, d) in enumerate(shape) if star == 2), None)
+    for i, v in zip(pos_params, positional):
+        bound[i] = ('arg', v)
+    extra = positional[len(pos_params):]
+    if extra and var_pos is None:
+        return None
+    if var_pos is not None:
+        bound[var_pos] = ('tuple', list(extra))
+    kw_rest = {}
+    for k, v in keywords:
+        if k in names and shape[names.index(k)][0] == 0:
+            i = names.index(k)
+            if i in bound:
+                return None
+            bound[i] = ('arg', v)
+        elif var_kw is not None:
+            kw_rest[k] = v
+        else:
+            return None
+    if var_kw is not None:
+        bound[var_kw] = ('dict', kw_rest)
+    for i, (star, default) in enumerate(shape):
+        if i not in bound:
+            if star == 0 and default:
+                bound[i] = ('default', i)
+            else:
+                return None
+    return [bound[i] for i in range(P)]
+
+
+class C02a(Obligation):
+    id = 'C02.a'
+    title = 'call arguments are bound to parameters exactly as Python binds them (valid calls)'
+    pattern = 'P1 kernel vs reference (written from inspect.Signature._bind); call shape symbolic'
+    assumptions = (
+        'parameter lists of P<=3 (thorough 4) parameters: positional-or-keyword with/without default, *args, keyword-only, '
+        '**kwargs (no "/" and no bare "*"); calls of A<=3 already-unpacked arguments, positional before keyword, keys '
+        'from the parameter names plus one foreign name; only calls Python accepts are claimed',
+        'funcdef.get_params(), arguments.unpack(), FakeTuple/FakeDict/Lazy* containers and ExecutedParamName are '
+        'recording stand-ins; values are distinct tags',
+    )
+
+    def configs(self, tier):
+        pa = ((0, 1), (1, 1), (1, 2), (2, 2), (3, 2)) if tier == 'quick' else \
+            ((0, 1), (1, 1), (1, 2), (2, 2), (2, 3), (3, 2), (3, 3), (4, 3))
+        return [dict(P=p, A=a) for p, a in pa]
+
+    def scenario(self, ctx, cfg):
+        P, A = cfg['P'], cfg['A']
+        shape = ctx.oneof('parameter_list', param_shapes(P))
+        names = POOL[:P]
+        params = [ParamNode(names[i], shape[i][0], ('default-node', i) if shape[i][1] else None) for i in range(P)]
+        n_args = ctx.choice('n_arguments', A + 1)
+        args = []
+        seen_kw = False
+        for j in range(n_args):
+            key = ctx.oneof('key%d' % j, (None,) + names + ('zz',))
+            if key is None and seen_kw:
+                ctx.assume(False)       # positional after keyword is a syntax error
+            if key is not None:
+                seen_kw = True
+            args.append((key, ('value', j)))
+        expected = python_bind(shape, args)
+        if expected is None:
+            ctx.assume(False)           # Python raises TypeError for this call: outside the claim
+        ctx.int('unused')
+        funcdef = Obj(get_params=lambda: list(params), name=Obj(value='f'))
+        fv = Obj(tree_node=funcdef, get_default_param_context=lambda: 'default-context', inference_state=None)
+        arguments = Obj(unpack=lambda funcdef=None: iter(list(args)), get_calling_nodes=lambda: [])
+        ctx.patch(jparam, 'ExecutedParamName', lambda fvalue, arguments, param, lazy, is_default=False: Rec(param, lazy, is_default))
+        ctx.patch(jparam.iterable, 'FakeTuple', lambda state, lst: ('tuple', list(lst)))
+        ctx.patch(jparam.iterable, 'FakeDict', lambda state, dct: ('dict', dict(dct)))
+        ctx.patch(jparam, 'LazyKnownValue', lambda v: v)
+        ctx.patch(jparam, 'LazyTreeValue', lambda context, node: ('default', node[1]))
+        ctx.force(jparam.get_executed_param_names_and_issues)
+        out = ctx.call(jparam.get_executed_param_names_and_issues, fv, arguments)
+        ctx.check(out.exc is None, 'never raises')
+        if out.exc is not None:
+            return
+        result, issues = out.value
+        ctx.check(len(result) == P and all(result[i].param is params[i] for i in range(P)),
+                  'one bound value per parameter, in order')
+        if len(result) != P:
+            return
+        for i in range(P):
+            got = result[i].lazy
+            exp = expected[i]
+            if exp[0] == 'arg':
+                ctx.check(got == exp[1], 'parameter %d receives the argument Python binds to it' % i)
+            elif exp[0] == 'default':
+                ctx.check(got == ('default', i) and result[i].is_default, 'parameter %d falls back to its default' % i)
+            elif exp[0] == 'tuple':
+                ctx.check(got == ('tuple', exp[1]), '*args receives exactly the surplus positional arguments, in order')
+            else:
+                ctx.check(got == ('dict', exp[1]), '**kwargs receives exactly the keyword arguments naming no parameter')
+
+
+OBLIGATIONS = [C02a, C02b]
